@@ -239,8 +239,12 @@ package reconciledloader
 //@ func ReconciledLoader.SetRemoteOnline
 //@   objinv linv(rl)
 //@   modifies alloc, ReconciledLoader.open, ReconciledLoader.verifier, traversalrecord.Verifier.stack, traversalrecord.traversalLink.segment, traversalrecord.traversalLink.TraversalRecord
+//@   modifies remoteQueue.head, remoteQueue.tail, remoteQueue.lastConsumed, remoteQueue.dataSize, remotedLinkedItem.remoteItem
 //@   ensures rl.open == online
 //@   ensures online && !old(rl.open) ==> rl.verifier != nil && fresh(rl.verifier)
+//@   -- C06: a replay starts on an empty queue with nothing to retry - whatever was received for an earlier remote
+//@   -- request (before a pause) must not be replayed against, or retried into, the answer to the new one
+//@   ensures online && !old(rl.open) ==> rl.remoteQueue.head == nil && rl.remoteQueue.lastConsumed == nil
 //@   ensures !(online && !old(rl.open)) ==> rl.verifier == old(rl.verifier)
 
 //@ func ReconciledLoader.Cleanup
